@@ -133,6 +133,19 @@ func c03Spaces(tier string) []*explore.Space {
 			}
 		}
 	}
+	// prefixed and unprefixed elements of the same local name side by side: the
+	// position counts the step's candidates, not everything with that local name
+	var c5 []hostCase
+	for _, pre := range [][]gen.Step{nil, {gen.Ch("*")}, {gen.Ch("*"), gen.Ch("*")}, {gen.DSlash()}, {gen.DotDot()}} {
+		for _, h := range []gen.Step{gen.Ch("a"), gen.Ch("p:a"), gen.Ch("q:a"), gen.Ch("b"), gen.Ch("*"), gen.St("child", "p:a")} {
+			for _, p := range pp {
+				abs := len(pre) > 0 && pre[0].Abbr == "//"
+				ws := append(append([]gen.Step{}, pre...), withPred(h, p))
+				bs := append(append([]gen.Step{}, pre...), h)
+				c5 = append(c5, hostCase{&gen.Path{Abs: abs, Steps: ws}, &gen.Path{Abs: abs, Steps: bs}})
+			}
+		}
+	}
 	// positional first predicate followed by one or two boolean predicates
 	var c2 []hostCase
 	sm := smallAtoms()
@@ -197,6 +210,7 @@ func c03Spaces(tier string) []*explore.Space {
 			hostSpace("Pos3xM2-3", "(F)[n] x M(2,3)", c3, func() []*doc.Tree { return uniM(2, 3) }, "C03"),
 			hostSpace("Pos4xM2-3", "positional child steps inside a predicate x M(2,3)", c4, func() []*doc.Tree { return uniM(2, 3) }, "C03"),
 			hostSpace("Pos4xT4", "positional child steps inside a predicate x T(<=4)", c4, func() []*doc.Tree { return uniT(4) }, "C03"),
+			hostSpace("Pos5xFlatNS4", "child-step[positional] with prefixed / unprefixed name tests x two parents with 1..4 children over {a, p:a, q:a, b}", c5, func() []*doc.Tree { return uniFlatNS(4) }, "C03"),
 			hostSpace("Pos1xWide6", "prefix/child-step[positional] x one parent with 5..6 children", c1, func() []*doc.Tree { return uniWide(6) }, "C03"),
 			hostSpace("Pos3xWide6", "(F)[n] x one parent with 5..6 children", c3, func() []*doc.Tree { return uniWide(6) }, "C03"),
 			hostSpace("Pos3xT5", "(F)[n] x T(<=5)", c3, func() []*doc.Tree { return uniT(5) }, "C03"),
@@ -208,6 +222,7 @@ func c03Spaces(tier string) []*explore.Space {
 		hostSpace("Pos2xM2-2", "child-step[positional][boolean]{1,2} x M(2,2)", c2, func() []*doc.Tree { return uniM(2, 2) }, "C03"),
 		hostSpace("Pos3xM2-2", "(F)[n] x M(2,2)", c3, func() []*doc.Tree { return uniM(2, 2) }, "C03"),
 		hostSpace("Pos4xM2-2", "positional child steps inside a predicate x M(2,2)", c4, func() []*doc.Tree { return uniM(2, 2) }, "C03"),
+		hostSpace("Pos5xFlatNS3", "child-step[positional] with prefixed / unprefixed name tests x two parents with 1..3 children over {a, p:a, q:a, b}", c5, func() []*doc.Tree { return uniFlatNS(3) }, "C03"),
 		hostSpace("Pos1/4xWide5", "fixed stratum (every 4th) of prefix/child-step[positional] x one parent with 5 children", strideCases(c1, 4), func() []*doc.Tree { return uniWide(5) }, "C03"),
 		hostSpace("Pos4/3xT3", "fixed stratum (every 3rd) of positional child steps inside a predicate x T(<=3)", strideCases(c4, 3), func() []*doc.Tree { return uniT(3) }, "C03"),
 		hostSpace("Pos3xT3", "(F)[n] x T(<=3)", c3, func() []*doc.Tree { return uniT(3) }, "C03"),
@@ -217,7 +232,7 @@ func c03Spaces(tier string) []*explore.Space {
 func init() {
 	explore.Register(&explore.Property{
 		ID: "C03", Level: "exploration",
-		Rule: "child-axis steps whose first predicate is positional ([n], position() op n in both operand orders, position() op last(), last(), last()-n), alone, after 18 kinds of prefix, and followed by one or two boolean predicates, plus (F)[n] for flat paths and single descendant steps F, are evaluated on every document of a multi-parent universe (fan-out differs between sibling parents) and of T(<=N) from every context node and compared as node sets with the reference (proximity position per parent; document order for (F)[n]); non-trivial = the positional predicate keeps a strict non-empty subset of the step's candidates; distinct = distinct expressions with a non-trivial case",
+		Rule: "child-axis steps whose first predicate is positional ([n], position() op n in both operand orders, position() op last(), last(), last()-n), alone, after 18 kinds of prefix, and followed by one or two boolean predicates, plus prefixed / unprefixed name tests over siblings sharing a local name under different prefixes, plus (F)[n] for flat paths and single descendant steps F, are evaluated on every document of a multi-parent universe (fan-out differs between sibling parents) and of T(<=N) from every context node and compared as node sets with the reference (proximity position per parent; document order for (F)[n]); non-trivial = the positional predicate keeps a strict non-empty subset of the step's candidates; distinct = distinct expressions with a non-trivial case",
 		Assumptions:    []string{"hand-written reference evaluator", "lawful NodeNavigator", "bounded trees"},
 		Budget:         budget(90*time.Second, 30*time.Minute),
 		MinRefOutcomes: 2,
